@@ -707,11 +707,22 @@ where
         }
     }
 
+    /// Keep a key's hash away from the two reserved slot states
+    /// (0 marks an empty slot, u64::MAX a tombstone)
+    #[inline]
+    fn normalize_hash(hash: u64) -> u64 {
+        match hash {
+            0 => 1,
+            u64::MAX => u64::MAX - 1,
+            h => h,
+        }
+    }
+
     /// Hash a key using the configured hasher
     fn hash_key(&self, key: &K) -> u64 {
         let mut hasher = self.hash_builder.build_hasher();
         key.hash(&mut hasher);
-        hasher.finish()
+        Self::normalize_hash(hasher.finish())
     }
 
     /// Hash a borrowed key using the configured hasher
@@ -722,7 +733,7 @@ where
     {
         let mut hasher = self.hash_builder.build_hasher();
         key.hash(&mut hasher);
-        hasher.finish()
+        Self::normalize_hash(hasher.finish())
     }
 
     /// Resize the storage to accommodate more elements
@@ -1004,7 +1015,7 @@ where
 
         let mut hasher = hash_builder.build_hasher();
         key.hash(&mut hasher);
-        let hash = hasher.finish();
+        let hash = Self::normalize_hash(hasher.finish());
 
         let capacity = entries.len();
         let index = (hash as usize) & *mask;
@@ -1098,7 +1109,7 @@ where
 
         let mut hasher = hash_builder.build_hasher();
         key.hash(&mut hasher);
-        let hash = hasher.finish();
+        let hash = Self::normalize_hash(hasher.finish());
 
         let capacity = entries.len();
         let index = (hash as usize) & *mask;
